@@ -133,6 +133,9 @@ fn geocart(h: &H, idx: u64, rng: &mut Rng) {
     let sz = catalog::size(&ell);
     h.class("geocart");
     h.distinct(mix(hash_str(&name), idx));
+    if h.want_sample() {
+        h.sample(J::obj().set("what", "geographic <-> cartesian").set("ellipsoid", &name).set("a", ell.a).set("f", ell.f));
+    }
     if rng.chance(0.02) {
         derived(h, idx, &name, &e);
     }
@@ -183,6 +186,9 @@ fn geodesics(h: &H, idx: u64, rng: &mut Rng) {
         // direct and inverse are mutually consistent; end point symmetry
         0..=5 => {
             h.class("geodesic/general");
+            if h.want_sample() {
+                h.sample(J::obj().set("what", "direct/inverse geodesic").set("ellipsoid", &name).set("from_lon_lat", J::coords(&[lon1, lat1])));
+            }
             let az = rng.range(-PI, PI);
             let s = maxd * rng.f() * if rng.chance(0.2) { 1e-3 } else { 1.0 };
             let d = e.geodesic_fwd(&p1, az, s);
